@@ -149,10 +149,10 @@ def chunks(prop, tier, n):
     for i in range(n):
         kind = "h" if i % 4 == 3 else "c"
         if prop == "C19":
-            for mode in ("header", "comment", "append"):
+            for mode in ("header", "comment", "comment", "comment", "append"):
                 if mode == "append" and kind == "h":
                     continue
-                out.append(dict(prop=prop, seed=i, kind=kind, mode=mode))
+                out.append(dict(prop=prop, seed=i, kind=kind, mode=mode, sub=len(out)))
         elif prop == "C17":
             out.append(dict(prop=prop, seed=i, kind=kind, inside=(i % 3 == 2)))
         else:
@@ -239,12 +239,15 @@ def run_chunk(chunk, ctx):
             var.lines = F.header_lines(prog.name) + var.lines
             at, by = 1, 11
         elif mode == "comment":
-            tops = [i for i, l in enumerate(base.lines) if l.kind == "func_sig" or (l.kind in ("proto", "utype_open") and base.lines[i - 1].kind == "blank")]
-            tops = [i for i in tops if i > 0]
+            # every top-level boundary after the 42 header: before an include / define / global / prototype / type /
+            # function / blank line (not inside function bodies or type blocks)
+            tops = [i for i, l in enumerate(base.lines)
+                    if i > 11 and l.kind in ("func_sig", "proto", "utype_open", "include", "define", "global", "blank", "guard_endif")
+                    and l.func is None or (l.kind == "func_sig" and i > 11)]
             if not tops:
                 return dict(stats=dict(paths=0), validated=0, confirmed=[], unconfirmed=[], n_mismatch=0, mismatches=[],
                             samples=[], gaps={}, counters={"skipped_no_boundary": 1}, notes={})
-            b = tops[chunk["seed"] % len(tops)]
+            b = tops[(chunk["seed"] * 7 + chunk.get("sub", 0)) % len(tops)]
             cs = F.Slot("comment", "xyz"[: 1 + chunk["seed"] % 3])
             line = F.Line(["/* ", cs, " */"] if chunk["seed"] % 2 else ["// ", cs], "comment")
             var.lines = var.lines[:b] + [line] + var.lines[b:]
